@@ -36,7 +36,29 @@ func checkArith(s string, st *Stats) error {
 	}
 	f := text.NewFile("f", []byte(s))
 	ctx := parsley.NewContext(parsley.NewFileSet(f), text.NewReader(f))
-	got, gerr := parsley.Evaluate(ctx, arithP)
+	// Work bound (a count, not a clock): the pinned library needs about 3 n^2 parser calls for an
+	// n-byte expression; a parse is stopped at 1000 n^2 + 10^6 calls and reported, because
+	// "Evaluate returns the value / an error" is not met by a parse that practically never ends.
+	limit := 1000*len(s)*len(s) + 1000000
+	ctx.SetUserContext(&arithLimit{limit})
+	var got interface{}
+	var gerr error
+	stopped := -1
+	func() {
+		defer func() {
+			if r := recover(); r != nil {
+				if cl, ok := r.(callLimit); ok {
+					stopped = cl.n
+					return
+				}
+				panic(r)
+			}
+		}()
+		got, gerr = parsley.Evaluate(ctx, arithP)
+	}()
+	if stopped >= 0 {
+		return fmt.Errorf("Evaluate was stopped after %d parser calls on a %d-byte expression (bound %d; about %d would be normal): it does not return a value or an error in any reasonable amount of work", stopped, len(s), limit, 3*len(s)*len(s)+100)
+	}
 	switch {
 	case werr != nil:
 		if st != nil {
@@ -122,7 +144,7 @@ func init() {
 				s = genExpr(t, rapid.IntRange(0, maxd).Draw(t, "depth"))
 			}
 			if rapid.IntRange(0, 5).Draw(t, "mutate") == 0 {
-				s = mutateSource(t, s, "+-*/() 1.x0\n")
+				s = mutateSource(t, s, "+-*/() 1.x0\n\r\v\x00_")
 			}
 			return &SrcCase{Src: s}
 		},
